@@ -154,7 +154,7 @@ theorem callerMeta_lookup (rm : List (Bytes × Bytes)) (addr k : Bytes) (hk : k 
     simp [this]
 
 /-- the tie: the threshold rules were translated from the current source this run -/
-theorem tie_preds : Gen.predsTieOk = true := by decide
+theorem tie_preds : tieItem Gen.predsTie "Client.send:compress-threshold" = true ∧ tieItem Gen.predsTie "server:compress-threshold" = true := by decide
 
 /-- non-vacuity: a concrete call with a payload above the threshold, a toy lawful compressor and
     identity codecs meets the hypotheses' shape (evaluated, not proved in general) -/
